@@ -527,29 +527,29 @@ op('mergesort(presorted,key=None,stream)', ['g', 'same'], lambda a, b: etl.merge
 PS = ('stream:0', 'passall', 'c02only')
 for _nm, _f in [('join', etl.join), ('leftjoin', etl.leftjoin), ('rightjoin', etl.rightjoin),
                 ('outerjoin', etl.outerjoin), ('lookupjoin', etl.lookupjoin)]:
-    op('%s(presorted,dupkeys)' % _nm, ['dup', 'dup2'],
+    op('%s(presorted,dupkeys,stream)' % _nm, ['dup', 'dup2'],
        (lambda f: lambda a, b: f(a, b, key='k', presorted=True))(_f), PS, zero='skip')
-    op('%s(presorted,inckeys)' % _nm, ['inc', 'inc2'],
+    op('%s(presorted,inckeys,stream)' % _nm, ['inc', 'inc2'],
        (lambda f: lambda a, b: f(a, b, key='k', presorted=True))(_f), PS, zero='skip')
-op('antijoin(presorted)', ['inc', 'dup2'], lambda a, b: etl.antijoin(a, b, key='k', presorted=True), PS, zero='skip')
-op('complement(presorted)', ['inc', 'dup'], lambda a, b: etl.complement(a, b, presorted=True), PS, zero='skip')
-op('intersection(presorted)', ['inc', 'inc'], lambda a, b: etl.intersection(a, b, presorted=True),
+op('antijoin(presorted,stream)', ['inc', 'dup2'], lambda a, b: etl.antijoin(a, b, key='k', presorted=True), PS, zero='skip')
+op('complement(presorted,stream)', ['inc', 'dup'], lambda a, b: etl.complement(a, b, presorted=True), PS, zero='skip')
+op('intersection(presorted,stream)', ['inc', 'inc'], lambda a, b: etl.intersection(a, b, presorted=True),
    ('stream:0', 'c02only'), zero='skip')
-op('rowreduce(presorted)', ['inc'], lambda t: etl.rowreduce(t, 'k', _reducer, header=['k', 's'], presorted=True), PS, zero='skip')
-op('aggregate(len,presorted)', ['inc'], lambda t: etl.aggregate(t, 'k', len, presorted=True), PS, zero='skip')
-op('aggregate(multi,presorted)', ['inc'], lambda t: etl.aggregate(t, 'k', OrderedDict([('n', len), ('vs', ('v', list))]),
+op('rowreduce(presorted,stream)', ['inc'], lambda t: etl.rowreduce(t, 'k', _reducer, header=['k', 's'], presorted=True), PS, zero='skip')
+op('aggregate(len,presorted,stream)', ['inc'], lambda t: etl.aggregate(t, 'k', len, presorted=True), PS, zero='skip')
+op('aggregate(multi,presorted,stream)', ['inc'], lambda t: etl.aggregate(t, 'k', OrderedDict([('n', len), ('vs', ('v', list))]),
                                                                    presorted=True), PS, zero='skip')
-op('fold(presorted)', ['inc'], lambda t: etl.fold(t, 'k', operator.add, 'v', presorted=True), PS, zero='skip')
-op('groupselectfirst(presorted)', ['inc'], lambda t: etl.groupselectfirst(t, 'k', presorted=True), PS, zero='skip')
-op('groupselectlast(presorted)', ['inc'], lambda t: etl.groupselectlast(t, 'k', presorted=True), PS, zero='skip')
-op('mergeduplicates(presorted)', ['inc'], lambda t: etl.mergeduplicates(t, 'k', presorted=True), PS, zero='skip')
-op('rowgroupmap(presorted)', ['inc'], lambda t: etl.rowgroupmap(t, 'k', _groupmapper, header=['k', 'n'], presorted=True),
+op('fold(presorted,stream)', ['inc'], lambda t: etl.fold(t, 'k', operator.add, 'v', presorted=True), PS, zero='skip')
+op('groupselectfirst(presorted,stream)', ['inc'], lambda t: etl.groupselectfirst(t, 'k', presorted=True), PS, zero='skip')
+op('groupselectlast(presorted,stream)', ['inc'], lambda t: etl.groupselectlast(t, 'k', presorted=True), PS, zero='skip')
+op('mergeduplicates(presorted,stream)', ['inc'], lambda t: etl.mergeduplicates(t, 'k', presorted=True), PS, zero='skip')
+op('rowgroupmap(presorted,stream)', ['inc'], lambda t: etl.rowgroupmap(t, 'k', _groupmapper, header=['k', 'n'], presorted=True),
    PS, zero='skip')
-op('distinct(presorted)', ['inc'], lambda t: etl.distinct(t, 'k', presorted=True), PS, zero='skip')
-op('distinct(count,presorted)', ['inc'], lambda t: etl.distinct(t, 'k', count='n', presorted=True), PS, zero='skip')
-op('unique(presorted)', ['inc'], lambda t: etl.unique(t, 'k', presorted=True), PS, zero='skip')
-op('duplicates(presorted,dupkeys)', ['dup'], lambda t: etl.duplicates(t, 'k', presorted=True), PS, zero='skip')
-op('unjoin(presorted)[0]', ['inc'], lambda t: etl.unjoin(t, 'k', presorted=True)[0], PS, zero='skip')
+op('distinct(presorted,stream)', ['inc'], lambda t: etl.distinct(t, 'k', presorted=True), PS, zero='skip')
+op('distinct(count,presorted,stream)', ['inc'], lambda t: etl.distinct(t, 'k', count='n', presorted=True), PS, zero='skip')
+op('unique(presorted,stream)', ['inc'], lambda t: etl.unique(t, 'k', presorted=True), PS, zero='skip')
+op('duplicates(presorted,dupkeys,stream)', ['dup'], lambda t: etl.duplicates(t, 'k', presorted=True), PS, zero='skip')
+op('unjoin(presorted,stream)[0]', ['inc'], lambda t: etl.unjoin(t, 'k', presorted=True)[0], PS, zero='skip')
 # ---- tee views (outside C01 by the statement; inside C02/C03/C20) --------------------------
 op('teetext(prologue,epilogue)', ['g'], lambda t, ctx: etl.teetext(
     t, os.path.join(ctx, 'tee2.txt'), template='{k}|{v}\n', prologue='k|v\n', epilogue='end\n'), ('ctx', 'notee') + S0)
